@@ -795,6 +795,13 @@ def _builtin(s, ctx, func, g, tc, A, caller, ln, last):
     # ------------------------------------------------------------ DashMap (one shard lock = worst case)
     if E('DashMap::new') or E('DashMap::with_capacity'):
         m = MapM(kind='DashMap'); m.shard = LockM(None, 'shard', 'RwLock'); return m
+    if re.search(r'(Arc|Rc)(::<.*>)?::(strong_count|weak_count)$', g):
+        # other handles to the same allocation may exist: any count (strong >= 1), fixed per object
+        v = deref_all(A[0])
+        if not hasattr(ctx, 'rc_counts'): ctx.rc_counts = {}
+        k_ = (id(v), last)
+        if k_ not in ctx.rc_counts: ctx.rc_counts[k_] = (v, ctx.fresh_int(last, 1 if last == 'strong_count' else 0, 2 ** 20))
+        return ctx.rc_counts[k_][1]
     mt = re.search(r'TryResult::<.*>::(try_unwrap|unwrap|is_present|is_absent|is_locked)$', g) or re.search(r'TryResult::(try_unwrap|unwrap|is_present|is_absent|is_locked)$', g)
     if mt:
         v = deref_all(A[0]) if mt.group(1).startswith('is_') else A[0]
